@@ -12,6 +12,20 @@ One stream per producer.  Every case runs the REAL producer on a generated objec
 
 Producers: die / allocation writers (before and after refinement), netgen (every topology, every size up to a bound),
 FloorSet converter (synthetic numpy instances), rect_io.get_netlist / solution_to_netlist, legalfloor Model.get_netlist.
+
+Added in the "extend" round:
+  * allocation cells carry their `fixed` mark through the document (fixes/C19_alloc_fixed_mark.diff): marks compared
+    (`alloc:same-fixed-marks`), and the object read back must answer refine / must_be_refined / uniform_refinement_depth /
+    griddify exactly as the object that was written (`alloc:same-answers-after-reread`);
+  * every die / allocation document is ALSO re-read in a fresh interpreter (`FreshServer`: a pristine copy of this process
+    forked before the first library operation; one process per document), with the tolerances undefined or preset to what
+    an earlier design of another scale (x1e-3 … x1e3) would have left (`*:fresh-reread-*`);
+  * netgen below the guards (sizes −3 … , grids with no rows / columns, h-tree without levels): generator tree, reader
+    verdict and exception class compared with the model; `--add-centers` degenerate cases (ZeroDivisionError for no rows,
+    AssertionError without die); the command line `netgen.main` (option checks, die, seed, dispatch) against `netgenMain`;
+  * FloorSet from the RAW arrays (`floorset_raw`): the constructor's asserts, kinds from the placement constraints, alpha
+    from density / weight_sum / compute_perimeter, exception classes (AssertionError / ValueError / ZeroDivisionError);
+  * `solution_to_netlist` refusing a never-placed module (`Exception`), `get_netlist` with a netlist file.
 """
 from __future__ import annotations
 
@@ -20,7 +34,9 @@ import copy
 import io
 import math
 import os
+import pickle
 import re
+import struct
 import tempfile
 from fractions import Fraction
 from typing import Any
@@ -46,12 +62,13 @@ TRUSTED = [
     "geometric self-checks of the readers (Die._check_rectangles, Allocation._check_no_overlap, hard-module overlap, "
     "create_stog) are outside the tree-level theorems: the theorems give 'the reader sees exactly the numbers of the source "
     "object'; the real readers (with those checks) are run on every sample",
-    "NOT CLAIMED — the run-time `fixed` mark of an allocation cell: the allocation format ([[x, y, w, h, region], {module: ratio}, "
-    "depth]) has no field for it (it is re-derived from a netlist by Allocation.initial_allocation / _detect_fixed_rectangles), so an "
-    "allocation read back has all cells unmarked; operations that look at the mark can then differ (witness: 4x4 die, fixed cell "
-    "[3,1,2,2] {B: 1.0}: refine(1.0, 1) gives 5 cells on the original and 6 on the re-read object, audit/audit3_scratch/C19/"
-    "fixed_lost.py); theorem alloc_roundtrip_constructor states the re-read cells with the marks reset (stripCell)",
-    "FloorSet: polygon decomposition (strop_decomposition, property C15) and the density factor alpha are inputs of the model",
+    "allocation cells: the `fixed` mark is part of the document since fixes/C19_alloc_fixed_mark.diff (fourth entry `fixed`); the marks "
+    "`hard` / STOG location of a cell's rectangle are not (no operation of Allocation reads them): theorem alloc_roundtrip_constructor "
+    "states the re-read cells with these two reset (stripCell)",
+    "FloorSet: the polygon decomposition of every block (strop_decomposition, property C15) is an input of the converter model; "
+    "everything else the constructor does with the numpy arrays — the asserts on the arrays and the density, kinds from the placement "
+    "constraints, die from the pins, alpha from density / weight_sum / compute_perimeter (sqrt = IEEE sqrt) — is modelled (fsOfRaw) and "
+    "compared on every instance; numpy's pairwise summation inside np.sum is modelled as a left fold (compared at 1e-9)",
     "harness (Python) and compiled Lean driver: parsing, canonicalisation, comparison",
 ]
 
@@ -196,11 +213,13 @@ class Batch:
 
     def __init__(self):
         self.items: list[tuple[str, Any, str, Any, str]] = []
+        self.fresh = FreshQueue()
 
     def add(self, line: str, expected: Any, op: str, inp: Any, how: str = "tree") -> None:
         self.items.append((line, expected, op, inp, how))
 
     def flush(self, ctx: Ctx) -> None:
+        self.fresh.flush(ctx)
         if not self.items:
             return
         replies = ctx.model([it[0] for it in self.items])
@@ -243,6 +262,149 @@ def _size(inp: Any) -> int:
 
 def err_class(e: BaseException) -> str:
     return "err:Assert" if isinstance(e, AssertionError) else "err:" + type(e).__name__
+
+
+# =============================================================================== re-reading in a fresh interpreter
+class FreshServer:
+    """A pristine copy of this interpreter, forked before this module executed any operation of the library (the parent
+    has only IMPORTED it: class-wide tolerances undefined, no object ever built).  Every job sent to it is run in a process
+    of its own forked from that pristine copy — "a fresh interpreter" without paying the import time per document — so a
+    document written by the (long-lived, stateful) harness process is re-read where nothing of the writing process
+    survives except the text."""
+
+    def __init__(self) -> None:
+        self.pristine_at_fork = not Rectangle.epsilon_defined()
+        req_r, req_w = os.pipe()
+        res_r, res_w = os.pipe()
+        pid = os.fork()
+        if pid == 0:
+            try:
+                os.close(req_w)
+                os.close(res_r)
+                self._serve(req_r, res_w)
+            finally:
+                os._exit(0)
+        os.close(req_r)
+        os.close(res_w)
+        self.pid, self.req_w, self.res_r = pid, req_w, res_r
+
+    @staticmethod
+    def _send(fd: int, obj: Any) -> None:
+        data = pickle.dumps(obj)
+        os.write(fd, struct.pack(">Q", len(data)))
+        view = memoryview(data)
+        while view:
+            n = os.write(fd, view[:1 << 16])
+            view = view[n:]
+
+    @staticmethod
+    def _recv(fd: int) -> Any:
+        def rd(n: int) -> bytes:
+            out = b""
+            while len(out) < n:
+                chunk = os.read(fd, n - len(out))
+                if not chunk:
+                    raise EOFError
+                out += chunk
+            return out
+        (n,) = struct.unpack(">Q", rd(8))
+        return pickle.loads(rd(n))
+
+    def _serve(self, req_r: int, res_w: int) -> None:
+        import multiprocessing as mp
+        while True:
+            try:
+                jobs = self._recv(req_r)
+            except EOFError:
+                return
+            if jobs is None:
+                return
+            try:
+                with mp.get_context("fork").Pool(processes=min(8, os.cpu_count() or 2), maxtasksperchild=1) as pool:
+                    results = pool.map(fresh_job, jobs, chunksize=1)
+            except Exception as e:      # noqa: BLE001
+                results = [{"infrastructure": repr(e)[:300]} for _ in jobs]
+            self._send(res_w, results)
+
+    def map(self, jobs: list[dict]) -> list[dict]:
+        self._send(self.req_w, jobs)
+        return self._recv(self.res_r)
+
+    def close(self) -> None:
+        try:
+            self._send(self.req_w, None)
+            os.close(self.req_w)
+            os.close(self.res_r)
+            os.waitpid(self.pid, 0)
+        except OSError:
+            pass
+
+
+FRESH: FreshServer | None = None
+LIBRARY_USED = False          # set by the first case this module runs: a server forked later would not be pristine
+
+
+def fresh_server() -> FreshServer | None:
+    global FRESH
+    if FRESH is None and not LIBRARY_USED and not Rectangle.epsilon_defined():
+        import atexit
+        FRESH = FreshServer()
+        atexit.register(FRESH.close)
+    return FRESH
+
+
+def fresh_job(job: dict) -> dict:
+    """runs in a fresh forked interpreter: optionally an earlier design's tolerance is in force (`preset`), then the
+    document is read by its reader; returns a snapshot of what the reader built."""
+    out: dict[str, Any] = {"pristine": not Rectangle.epsilon_defined()}
+    try:
+        if job.get("preset") is not None:
+            Rectangle.set_epsilon(job["preset"])
+        with contextlib.redirect_stdout(io.StringIO()):
+            if job["kind"] == "alloc":
+                a = Allocation(job["doc"])
+                out["cells"] = plain(alloc_snapshot(a))
+                mods = sorted({m for c in a.allocations for m in c.alloc})
+                out["stats"] = [[m, a.area(m), a.center(m).x, a.center(m).y] for m in mods]
+                out["rewrite"] = a.write_yaml()
+            elif job["kind"] == "die":
+                net = Netlist(job["netlist"]) if job["netlist"] else None
+                d = Die(job["doc"], net)
+                out["die"] = plain(die_snapshot(d))
+                out["rewrite"] = d.write_yaml()
+        out["eps"] = [Rectangle.distance_epsilon(), Rectangle.area_epsilon()]
+    except BaseException as e:      # noqa: BLE001
+        out["raised"] = f"{type(e).__name__}: {str(e)[:200]}"
+    return out
+
+
+class FreshQueue:
+    """re-read jobs collected during the run; executed and compared after the in-process stream."""
+
+    def __init__(self) -> None:
+        self.items: list[tuple[dict, Any]] = []
+
+    def add(self, job: dict, compare) -> None:
+        self.items.append((job, compare))
+
+    def flush(self, ctx: Ctx) -> None:
+        if not self.items:
+            return
+        srv = fresh_server()
+        if srv is None:
+            ctx.notes.append("fresh-interpreter re-reads not run: no pristine interpreter could be forked (the library had "
+                             "already been used in this process)")
+            return
+        results = srv.map([j for j, _ in self.items])
+        for (job, compare), res in zip(self.items, results):
+            if "infrastructure" in res:
+                ctx.notes.append("fresh-interpreter re-read could not be run: " + res["infrastructure"])
+                continue
+            ctx.count("fresh:" + job["kind"] + (":preset" if job.get("preset") is not None else ":undefined-tolerance"))
+            if not res.get("pristine"):
+                ctx.notes.append("fresh-interpreter re-read: the forked interpreter was not pristine")
+            compare(ctx, job, res)
+        self.items = []
 
 
 # =============================================================================== number families
@@ -370,7 +532,12 @@ def gen_die(rng) -> dict:
     else:
         op = ["grid", rng.randint(1, 4), rng.randint(2, 4)]
     return {"producer": "die", "fam": fam, "tree": tree, "netlist": netlist, "op": op,
-            "tofile": rng.random() < 0.1}
+            "tofile": rng.random() < 0.1, "reread": rng.choice(REREAD_FACTORS)}
+
+
+# tolerance in force when a document is re-read in a fresh interpreter: None = undefined (nothing was loaded before);
+# k = an earlier design left k × the tolerance this design would install itself (scales within ×1000, the band of C20)
+REREAD_FACTORS = [None, None, None, 1e-3, 1e-2, 0.1, 10.0, 100.0, 1e3]
 
 
 def die_snapshot(d: Die) -> Any:
@@ -447,6 +614,40 @@ def run_die(ctx: Ctx, inp: dict, batch: Batch) -> None:
             ctx.spec_fail("die:same-ground-region", inp, {"written": before["gnd"], "read": a2["gnd"]}, _size(inp))
         if d2.write_yaml() != s1:
             ctx.spec_fail("die:rewrite-stable", inp, {"first": s1[:300], "again": d2.write_yaml()[:300]}, _size(inp))
+    # ---- read back in a FRESH interpreter, under no tolerance or the tolerance an earlier design of another scale left
+    own = min(float(before["w"]), float(before["h"])) * 10e-12
+    factor = inp.get("reread")
+    preset = None if factor is None else own * factor
+    coords_x = sorted({float(v) for r in before["blk"] + before["spec"] + before["fix"] for v in (vs_bb(r)[0], vs_bb(r)[2])} | {0.0, float(before["w"])})
+    coords_y = sorted({float(v) for r in before["blk"] + before["spec"] + before["fix"] for v in (vs_bb(r)[1], vs_bb(r)[3])} | {0.0, float(before["h"])})
+    gaps = [b - a for cs in (coords_x, coords_y) for a, b in zip(cs, cs[1:])]
+    in_band = preset is None or not gaps or min(gaps) > 4 * preset
+
+    def cmp_die(ctx: Ctx, job: dict, res: dict) -> None:
+        if "raised" in res:
+            if in_band:
+                ctx.spec_fail("die:fresh-reread-accepted", inp, {"document": s1[:400], "preset_tolerance": job.get("preset"),
+                                                                  "raised": res["raised"]}, _size(inp))
+            else:
+                ctx.count("fresh:die:outside-band")
+            return
+        got = res["die"]
+        bad = [fld for fld in ("w", "h", "blk", "spec", "fix") if plain(before[fld]) != got[fld]]
+        if inp["op"][0] == "none" and plain(before["gnd"]) != got["gnd"]:
+            bad.append("gnd")
+        scale = max(1.0, float(before["w"]) * float(before["h"]))
+        tol = Fraction(0) if exact else Fraction(scale) / 10 ** 9
+        if not same_region(before["gnd"], got["gnd"], tol):
+            bad.append("ground-region")
+        if res.get("rewrite") != s1:
+            bad.append("rewrite")
+        if bad:
+            if in_band:
+                ctx.spec_fail("die:fresh-reread-same", inp, {"differs": bad, "preset_tolerance": job.get("preset"),
+                                                              "tolerance_in_force": res.get("eps")}, _size(inp))
+            else:
+                ctx.count("fresh:die:outside-band")
+    batch.fresh.add({"kind": "die", "doc": s1, "netlist": inp["netlist"], "preset": preset}, cmp_die)
     # ---- Lean model: writer on the object, reader on the tree
     tree1 = load_text(s1)
     batch.add("F die_write " + die_obj_wire(d), tree1, "die_write", inp)
@@ -487,7 +688,8 @@ def gen_alloc(rng) -> dict:
         ops = []
         for _ in range(rng.choice([0, 0, 1, 2])):
             ops.append(rng.choice([["refine", rng.choice([0.3, 0.6, 0.9, 1.0]), rng.randint(1, 3)], ["uniform"], ["griddify"]]))
-        return {"producer": "alloc", "fam": fam, "kind": "tree", "cells": cells, "ops": ops, "tofile": rng.random() < 0.1}
+        return {"producer": "alloc", "fam": fam, "kind": "tree", "cells": cells, "ops": ops, "tofile": rng.random() < 0.1,
+                "reread": rng.choice(REREAD_FACTORS)}
     # pipeline
     xs, ys = cuts(rng, fam, W, rng.randint(0, 3)), cuts(rng, fam, H, rng.randint(0, 3))
     nx, ny = len(xs) - 1, len(ys) - 1
@@ -513,7 +715,29 @@ def gen_alloc(rng) -> dict:
     for _ in range(rng.choice([0, 1, 1, 2])):
         ops2.append(rng.choice([["refine", rng.choice([0.3, 0.6, 0.9, 1.0]), rng.randint(1, 2)], ["uniform"], ["griddify"]]))
     return {"producer": "alloc", "fam": fam, "kind": "pipeline", "die": die, "netlist": write_yaml({"Modules": mods, "Nets": []}),
-            "dieops": ops, "ops": ops2, "zero": rng.random() < 0.3, "tofile": rng.random() < 0.1}
+            "dieops": ops, "ops": ops2, "zero": rng.random() < 0.3, "tofile": rng.random() < 0.1,
+            "reread": rng.choice(REREAD_FACTORS)}
+
+
+MARK_CARRIED: bool | None = None
+
+
+def mark_carried() -> bool:
+    """does the implementation under test write the `fixed` mark of an allocation cell into the document
+    (fixes/C19_alloc_fixed_mark.diff applied)?  Probed once, through the public API: a marked cell is written."""
+    global MARK_CARRIED
+    if MARK_CARRIED is None:
+        try:
+            Rectangle.undefine_epsilon()
+            r = Rectangle(center=Point(1, 1), shape=Shape(2, 2), fixed=True)
+            a = Allocation([(r, {"F": 1.0}, 0), (Rectangle(center=Point(3, 1), shape=Shape(2, 2)), {"S": 0.5}, 0)])
+            tree = load_text(a.write_yaml())
+            MARK_CARRIED = len(tree[0]) == 4
+        except Exception:      # noqa: BLE001
+            MARK_CARRIED = True        # cannot tell: judge against the repaired behaviour
+        finally:
+            Rectangle.undefine_epsilon()
+    return MARK_CARRIED
 
 
 def alloc_snapshot(a: Allocation) -> Any:
@@ -521,7 +745,8 @@ def alloc_snapshot(a: Allocation) -> Any:
 
 
 def alloc_obj_wire(a: Allocation) -> str:
-    cells = [[list(c.rect.vector_spec), dict(c.alloc), c.depth] for c in a.allocations]
+    """the part of an allocation its writer reads: rectangle vector, ratio map, depth and the `fixed` mark of every cell."""
+    cells = [[list(c.rect.vector_spec), dict(c.alloc), c.depth, bool(c.rect.fixed)] for c in a.allocations]
     return enc(cells)
 
 
@@ -558,7 +783,7 @@ def alloc_parse_expected(tree1: Any, a2: Allocation | None) -> Any:
             cells = getattr(probe, "_allocations", None)
             if cells is None:
                 cells = probe.allocations
-            return [[list(c.rect.vector_spec), dict(c.alloc), c.depth] for c in cells]
+            return [[list(c.rect.vector_spec), dict(c.alloc), c.depth, bool(c.rect.fixed)] for c in cells]
         except AssertionError:
             return "err:Assert"
         except (AttributeError, TypeError):
@@ -568,7 +793,44 @@ def alloc_parse_expected(tree1: Any, a2: Allocation | None) -> Any:
                         "(skipped for documents the full constructor rejects)")
     if a2 is None:
         return None
-    return [[list(c.rect.vector_spec), dict(c.alloc), c.depth] for c in a2.allocations]
+    return [[list(c.rect.vector_spec), dict(c.alloc), c.depth, bool(c.rect.fixed)] for c in a2.allocations]
+
+
+def same_after_ops(a: Allocation, b: Allocation) -> str | None:
+    """the object read back must answer the public refinement operations as the object that was written (they look at
+    the cells, the ratios, the depths and the `fixed` marks): None, or what differs."""
+    for name, op in (("must_be_refined(0.6)", lambda x: x.must_be_refined(0.6)), ("must_be_refined(1.0)", lambda x: x.must_be_refined(1.0)),
+                     ("max_refinement_depth()", lambda x: x.max_refinement_depth())):
+        if op(a) != op(b):
+            return name
+    n = len(a.allocations)
+    depths = [c.depth for c in a.allocations]
+    ops = []
+    if 2 * n <= 250:
+        ops.append(("refine(1.0, 1)", lambda x: x.refine(1.0, 1)))
+    if sum(2 ** (max(depths) - d) for d in depths) <= 250:
+        ops.append(("uniform_refinement_depth()", lambda x: x.uniform_refinement_depth()))
+    if n <= 30:
+        ops.append(("griddify()", lambda x: x.griddify()))
+    for name, op in ops:
+        ra = rb = None
+        try:
+            with contextlib.redirect_stdout(QUIET):
+                ra = alloc_snapshot(op(a))
+        except (AssertionError, ZeroDivisionError, IndexError):
+            ra = "raised"
+        try:
+            with contextlib.redirect_stdout(QUIET):
+                rb = alloc_snapshot(op(b))
+        except (AssertionError, ZeroDivisionError, IndexError):
+            rb = "raised"
+        if ra == "raised" or rb == "raised":
+            if ra != rb:
+                return name + " (one of them raised)"
+            continue
+        if not typed_eq(plain(ra), plain(rb)):
+            return name
+    return None
 
 
 def run_alloc(ctx: Ctx, inp: dict, batch: Batch) -> Allocation | None:
@@ -630,10 +892,22 @@ def run_alloc(ctx: Ctx, inp: dict, batch: Batch) -> Allocation | None:
                 ctx.spec_fail("alloc:accepted-from-file", inp, {"document": s1[:600], "raised": repr(e)[:300]}, _size(inp))
     if a2 is not None:
         after = alloc_snapshot(a2)
-        if [c[1] for c in before] != [c[1] for c in after]:
-            # NOT CLAIMED: the allocation format `[[x, y, w, h, region], {module: ratio}, depth]` has no field for the run-time
-            # `fixed` mark of a cell (set by `_detect_fixed_rectangles` from a netlist); it is counted, not compared
-            ctx.count("alloc:fixed-mark-not-carried(no field in the format)")
+        if any(c[1] for c in before):
+            ctx.count("alloc:with-fixed-cells")
+        marks_lost = [c[1] for c in before] != [c[1] for c in after]
+        if marks_lost:
+            # the `fixed` mark of a cell decides what refine / must_be_refined / uniform_refinement_depth / griddify do with
+            # it: an allocation read back without it is not the design that was written.  The signature "every written
+            # mark comes back False" is the defect fixes/C19_alloc_fixed_mark.diff repairs.
+            lost_only = all(not m for m in [c[1] for c in after])
+            if lost_only and not mark_carried():
+                # the tree under test is the code AS FOUND (the repair is not applied yet): the known defect is announced
+                # once in the notes and counted; it is judged against the as-found model (`writeAllocOrig`/`readAllocOrig`)
+                ctx.count("alloc:fixed-mark-LOST(defect C19_alloc_fixed_mark present, repair pending)")
+            else:
+                ctx.spec_fail("alloc:same-fixed-marks", inp, {"written": [c[1] for c in before], "read": [c[1] for c in after],
+                                                             "document": s1[:400]}, _size(inp),
+                              finding="C19_alloc_fixed_mark" if lost_only else None)
         if [c[0] for c in before] != [c[0] for c in after]:
             ctx.spec_fail("alloc:same-cells", inp, {"written": [c[0] for c in before], "read": [c[0] for c in after]}, _size(inp))
         elif [c[2] for c in before] != [c[2] for c in after]:
@@ -647,11 +921,40 @@ def run_alloc(ctx: Ctx, inp: dict, batch: Batch) -> Allocation | None:
                     ctx.spec_fail("alloc:same-module-area-centre", inp, {"module": m}, _size(inp))
         if a2.write_yaml() != s1:
             ctx.spec_fail("alloc:rewrite-stable", inp, {"first": s1[:300]}, _size(inp))
+        if not marks_lost and [c[:1] + c[2:] for c in before] == [c[:1] + c[2:] for c in after]:
+            diff = same_after_ops(a, a2)
+            if diff:
+                ctx.spec_fail("alloc:same-answers-after-reread", inp, {"operation": diff, "document": s1[:400]}, _size(inp))
+        # ---- read back in a FRESH interpreter, under no tolerance or the tolerance an earlier design of another scale left
+        bb = a.bounding_box.shape
+        factor = inp.get("reread")
+        preset = None if factor is None else 1e-12 * min(bb.w, bb.h) * factor
+        stats = [[m, a.area(m), a.center(m).x, a.center(m).y] for m in sorted({m for c in before for m, _ in c[2]})]
+        in_process_marks_ok = not marks_lost
+
+        def cmp_alloc(ctx: Ctx, job: dict, res: dict) -> None:
+            if "raised" in res:
+                ctx.spec_fail("alloc:fresh-reread-accepted", inp, {"document": s1[:400], "preset_tolerance": job.get("preset"),
+                                                                    "raised": res["raised"]}, _size(inp))
+                return
+            want = plain(before)
+            got = res["cells"]
+            if not in_process_marks_ok:          # already reported by alloc:same-fixed-marks
+                want = [c[:1] + c[2:] for c in want]
+                got = [c[:1] + c[2:] for c in got]
+            if not typed_eq(want, got):
+                ctx.spec_fail("alloc:fresh-reread-same-cells", inp, {"preset_tolerance": job.get("preset"), "written": want[:6], "read": got[:6]}, _size(inp))
+            elif not typed_eq(plain(stats), res["stats"]):
+                ctx.spec_fail("alloc:fresh-reread-same-module-area-centre", inp, {"written": stats, "read": res["stats"]}, _size(inp))
+            elif in_process_marks_ok and res.get("rewrite") != s1:
+                ctx.spec_fail("alloc:fresh-reread-rewrite-stable", inp, {"first": s1[:300], "again": str(res.get("rewrite"))[:300]}, _size(inp))
+        batch.fresh.add({"kind": "alloc", "doc": s1, "preset": preset}, cmp_alloc)
     tree1 = load_text(s1)
-    batch.add("F alloc_write " + alloc_obj_wire(a), tree1, "alloc_write", inp)
+    suffix = "" if mark_carried() else "_orig"
+    batch.add(f"F alloc_write{suffix} " + alloc_obj_wire(a), tree1, "alloc_write" + suffix, inp)
     exp = alloc_parse_expected(tree1, a2)
     if exp is not None:
-        batch.add("F alloc_read " + enc(tree1), exp, "alloc_read", inp)
+        batch.add(f"F alloc_read{suffix} " + enc(tree1), exp, "alloc_read" + suffix, inp)
     Rectangle.undefine_epsilon()
     return a
 
@@ -743,6 +1046,7 @@ def run_netgen(ctx: Ctx, inp: dict, batch: Batch) -> None:
     kind, size = inp["kind"], inp["size"]
     defined = all(s >= NETGEN_MIN[kind] for s in size)
     Rectangle.undefine_epsilon()
+    req = f"F netgen {kind} {size[0]} {size[1] if len(size) > 1 else 0}"
     try:
         d1 = netgen_data(kind, size)
         d2 = netgen_data(kind, size)
@@ -750,13 +1054,29 @@ def run_netgen(ctx: Ctx, inp: dict, batch: Batch) -> None:
     except AssertionError:
         if defined:
             ctx.spec_fail("netgen:produce", inp, {"raised": "AssertionError"}, sum(size))
+        else:
+            # below the generator's guard (h-tree with no level): the model must raise the same class
+            ctx.case("netgen-undefined", ("netgen", kind, tuple(size)), False)
+            ctx.count(f"netgen:undefined-size-generator-asserts:{kind}")
+            batch.add(req, "err:Assert", "netgen:" + kind, inp)
         return
     if not defined:
+        # sizes at which the topology is not defined (self-loops, one-pin nets, unknown modules, negative sizes): no claim
+        # about the design, but the generator model and the reader model must still do what the code does — same tree,
+        # same accept / reject verdict of the reader (and the same loaded netlist when it accepts)
+        ctx.case("netgen-undefined", ("netgen", kind, tuple(size)), False)
         try:
             Netlist(s1)
             ctx.count(f"netgen:undefined-size-accepted:{kind}")
-        except Exception:
+        except AssertionError:
             ctx.count(f"netgen:undefined-size-rejected:{kind}")
+        except Exception as e:      # noqa: BLE001
+            ctx.spec_fail("netgen:undefined-size-reader-raised", inp, {"raised": repr(e)[:200], "document": s1[:300]}, abs(sum(size)))
+        if s1 != s1b or s1 != s2:
+            ctx.spec_fail("netgen:twice", inp, {"first": s1[:300], "second": s2[:300]}, abs(sum(size)))
+        batch.add(req, plain(d1), "netgen:" + kind, inp)
+        nl_read_request(batch, s1, inp)
+        Rectangle.undefine_epsilon()
         return
     if s1 != s1b or s1 != s2:
         ctx.spec_fail("netgen:twice", inp, {"first": s1[:300], "second": s2[:300]}, sum(size))
@@ -793,7 +1113,7 @@ def run_netgen(ctx: Ctx, inp: dict, batch: Batch) -> None:
     tree1 = load_text(s1)
     if not typed_eq(tree1, plain(d1)):
         ctx.spec_fail("netgen:text-denotes-data", inp, {}, sum(size))
-    batch.add(f"F netgen {kind} {size[0]} {size[1] if len(size) > 1 else 0}", plain(d1), "netgen:" + kind, inp)
+    batch.add(req, plain(d1), "netgen:" + kind, inp)
     if sum(size) <= 14 or kind == "htree" and size[0] <= 2:
         nl_read_request(batch, s1, inp)
     Rectangle.undefine_epsilon()
@@ -808,10 +1128,13 @@ def nl_read_request(batch: "Batch", doc: str, inp: Any) -> None:
 
 def gen_netgen_centres(rng) -> dict:
     rows, cols = rng.randint(1, 5), rng.randint(1, 5)
+    k = rng.random()
+    if k < 0.12:            # below the guards: no rows (division by zero), no columns (chain names, no centres), negative
+        rows, cols = rng.choice([(0, rng.randint(1, 3)), (rng.randint(0, 3), 0), (-1, 2), (2, -1), (0, 0), (-2, -2), (rng.randint(1, 3), 0)])
     fam = rng.choice(["int", "half", "dec", "float"])
     W = fam_coord(rng, fam, 1, 40) if fam != "float" else rng.uniform(1, 40)
     H = fam_coord(rng, fam, 1, 40) if fam != "float" else rng.uniform(1, 40)
-    return {"producer": "netgenc", "rows": rows, "cols": cols, "W": float(W), "H": float(H),
+    return {"producer": "netgenc", "rows": rows, "cols": cols, "W": float(W), "H": float(H), "nodie": rng.random() < 0.05,
             "sd": rng.choice([0, 0, 0.1, 0.5, 1e-3]), "seed": rng.randint(0, 10 ** 6), "cli": rng.random() < 0.15}
 
 
@@ -820,15 +1143,35 @@ def run_netgen_centres(ctx: Ctx, inp: dict, batch: Batch) -> None:
     import random
     from tools.netgen import netgen
     rows, cols, W, H, sd, seed = inp["rows"], inp["cols"], inp["W"], inp["H"], inp["sd"], inp["seed"]
-    sz = rows * cols
+    nodie = bool(inp.get("nodie"))
+    shape = None if nodie else Shape(W, H)
+    sz = abs(rows * cols)
     Rectangle.undefine_epsilon()
     random.seed(seed)
-    d1 = netgen.gen_grid(rows, cols, 1, True, sd, Shape(W, H))
-    random.seed(seed)
-    d2 = netgen.gen_grid(rows, cols, 1, True, sd, Shape(W, H))
-    random.seed(seed)
-    draws = [random.gauss(0, sd) for _ in range(2 * rows * cols)]     # the draws, in the order gen_modules makes them
+    ndraws = 2 * rows * cols if rows > 0 and cols > 0 else 0
+    draws = [random.gauss(0, sd) for _ in range(ndraws)]     # the draws, in the order gen_modules makes them
+    req = f"F netgenc {rows} {cols} {0 if nodie else 1} {f2hex(W)} {f2hex(H)} {len(draws)} " + " ".join(f2hex(v) for v in draws)
+    degenerate = rows < 1 or cols < 1 or nodie
+    try:
+        random.seed(seed)
+        d1 = netgen.gen_grid(rows, cols, 1, True, sd, shape)
+        random.seed(seed)
+        d2 = netgen.gen_grid(rows, cols, 1, True, sd, shape)
+    except (AssertionError, ZeroDivisionError) as e:
+        if not degenerate:
+            ctx.spec_fail("netgenc:produce", inp, {"raised": repr(e)[:200]}, sz)
+            return
+        ctx.case("netgen-undefined", ("netgenc", rows, cols, nodie), False)
+        ctx.count("netgen:grid+centres:undefined:" + type(e).__name__)
+        batch.add(req.rstrip(), err_class(e), "netgen:grid+centres", inp)
+        return
     s1, s2 = netgen_dump(d1), netgen_dump(d2)
+    if degenerate:
+        ctx.case("netgen-undefined", ("netgenc", rows, cols, nodie), False)
+        ctx.count("netgen:grid+centres:undefined:returns")
+        batch.add(req.rstrip(), plain(d1), "netgen:grid+centres", inp, "tol")
+        nl_read_request(batch, s1, inp)
+        return
     ctx.case("netgen", ("netgenc", rows, cols, W, H, sd, seed), True,
              sample={"producer": "netgen --add-centers", "rows": rows, "cols": cols, "die": [W, H], "sd": sd})
     ctx.count("netgen:grid+centres" + (":noise" if sd else ":exact"))
@@ -873,9 +1216,85 @@ def run_netgen_centres(ctx: Ctx, inp: dict, batch: Batch) -> None:
             if m["hard"] or m["rects"] or m["area"] != {"_": 1.0} or m["center"] != [float(v) for v in plain(d1)["Modules"][m["name"]]["center"]]:
                 ctx.spec_fail("netgenc:same-centre-area", inp, {"module": m["name"], "read": m}, sz)
                 break
-    batch.add(f"F netgenc {rows} {cols} {f2hex(W)} {f2hex(H)} {len(draws)} " + " ".join(f2hex(v) for v in draws),
-              plain(d1), "netgen:grid+centres", inp, "tol")
+    batch.add(req.rstrip(), plain(d1), "netgen:grid+centres", inp, "tol")
     nl_read_request(batch, s1, inp)
+
+
+# ------------------------------------------------------------------------------- netgen: the command line
+NETGEN_TYPES = ["grid", "chain", "ring", "star", "ring-star", "one-net", "htree"]
+
+
+def gen_netgen_main(rng) -> dict:
+    kind = rng.choice(NETGEN_TYPES)
+    nsz = 2 if kind == "grid" else 1
+    if rng.random() < 0.25:
+        nsz = rng.choice([1, 3, 3]) if kind == "grid" else rng.choice([2, 2, 3])          # wrong number of sizes
+    size = [rng.choice([-2, -1, 0, 0, 1, 1, 2, 3, 4, 5]) for _ in range(nsz)]
+    if kind == "htree":
+        size = [min(s, 3) for s in size]
+    add = rng.random() < (0.6 if kind == "grid" else 0.15)
+    die = None if rng.random() < (0.15 if add else 0.6) else [float(rng.randint(1, 30)), float(rng.choice([rng.randint(1, 30), rng.randint(2, 60) / 2]))]
+    noise = rng.choice([None, None, "flag", 0.0, 0.25, 1e-3, -0.5])
+    return {"producer": "netgenmain", "type": kind, "size": size, "add": add, "die": die, "noise": noise,
+            "seed": rng.choice([None, rng.randint(0, 10 ** 6)])}
+
+
+def run_netgen_main(ctx: Ctx, inp: dict, batch: Batch) -> None:
+    """`netgen.main` — option checks, die, seed, dispatch — against the model `netgenMain`: the written document or the
+    exception class."""
+    import random
+    from tools.netgen import netgen
+    kind, size, add, die, noise, seed = inp["type"], inp["size"], inp["add"], inp["die"], inp["noise"], inp["seed"]
+    Rectangle.undefine_epsilon()
+    with tempfile.TemporaryDirectory() as td:
+        fn = os.path.join(td, "n.yaml")
+        args = ["-o", fn, "--type", kind, "--size"] + [str(v) for v in size]
+        if add:
+            args.append("--add-centers")
+        if die is not None:
+            args += ["--die", f"{die[0]!r}x{die[1]!r}"]
+        if noise == "flag":
+            args.append("--add-noise")
+        elif noise is not None:
+            args += ["--add-noise=" + repr(noise)]
+        if seed is not None:
+            args += ["--seed", str(seed)]
+        sd = 0.1 if noise == "flag" else 0.0 if noise is None else float(noise)
+        state = random.getstate()
+        out: Any
+        try:
+            with contextlib.redirect_stdout(QUIET), contextlib.redirect_stderr(QUIET):
+                rc = netgen.main("netgen", args)
+            text = open(fn).read()
+            out = load_text(text)
+            if rc != 0:
+                ctx.spec_fail("netgenmain:return-code", inp, {"rc": rc}, _size(inp))
+        except (AssertionError, ZeroDivisionError) as e:
+            out = err_class(e)
+        except SystemExit:
+            ctx.count("netgenmain:argparse-exit")
+            return
+        finally:
+            Rectangle.undefine_epsilon()
+        # the gaussian draws main's generator makes after `random.seed(options['seed'])`: reproducible only with a seed
+        draws: list[float] = []
+        if add and kind == "grid" and len(size) == 2 and size[0] > 0 and size[1] > 0 and die is not None and sd >= 0:
+            if seed is None and sd > 0:
+                random.setstate(state)
+                ctx.count("netgenmain:unseeded-noise(not compared)")
+                return
+            random.seed(seed)
+            draws = [random.gauss(0, sd) for _ in range(2 * size[0] * size[1])]
+        random.setstate(state)
+    ctx.case("netgen-cli", ("netgenmain", repr(inp)), not isinstance(out, str), sample={"producer": "netgen.main", "args": args[2:]})
+    ctx.count("netgenmain:" + (out if isinstance(out, str) else "writes"))
+    W, H = die if die is not None else (0.0, 0.0)
+    req = (f"F netgen_main {kind} {len(size)} " + " ".join(str(v) for v in size) + f" {int(add)} {f2hex(sd)} {int(die is not None)} "
+           f"{f2hex(W)} {f2hex(H)} {len(draws)} " + " ".join(f2hex(v) for v in draws)).rstrip()
+    req = re.sub(r"  +", " ", req)
+    batch.add(req, out, "netgen:main", inp, "tol" if not isinstance(out, str) else "tree")
+    if not isinstance(out, str) and sum(abs(v) for v in size) <= 10:
+        nl_read_request(batch, text, inp)
 
 
 def _nl_expected(text_or_tree) -> tuple[Any, float]:
@@ -1004,8 +1423,34 @@ def gen_floorset(rng) -> dict:
     p2b = [[float(rng.randrange(len(pins))), float(rng.randrange(nb)), rng.choice(wchoice)] for _ in range(rng.randint(0, 6))]
     if rng.random() < 0.04:      # an instance without pins: the converter raises ValueError (max() of an empty sequence)
         pins, p2b = [], []
+    density = rng.choice([None, None, 0.25, 0.8, 1.0])
+    k = rng.random()
+    if k < 0.10:
+        # what the constructor's own checks refuse (a negative entry in one of the checked arrays, a density outside
+        # [0, 1]) and the degenerate densities (0.0 is "no density"; no positive weight makes the normalisation divide by 0)
+        what = rng.choice(["neg-area", "neg-b2b", "neg-p2b", "neg-pin", "neg-cons", "density>1", "density<0", "density=0", "zero-weights"])
+        if what == "neg-area":
+            areas[rng.randrange(len(areas))] = -1.0
+        elif what == "neg-b2b" and b2b:
+            b2b[rng.randrange(len(b2b))][2] = -0.5
+        elif what == "neg-p2b" and p2b:
+            p2b[rng.randrange(len(p2b))][2] = -2.0
+        elif what == "neg-pin" and pins:
+            pins[rng.randrange(len(pins))][rng.randrange(2)] = -0.25
+        elif what == "neg-cons":
+            cons[rng.randrange(len(cons))][rng.randrange(5)] = -1
+        elif what == "density>1":
+            density = 1.5
+        elif what == "density<0":
+            density = -0.25
+        elif what == "density=0":
+            density = 0.0
+        elif what == "zero-weights":
+            density = 0.5
+            b2b = [[a, b, 0.0] for a, b, _ in b2b]
+            p2b = [[a, b, 0.0] for a, b, _ in p2b]
     return {"producer": "floorset", "polys": polys, "areas": areas, "cons": cons, "pins": pins, "b2b": b2b, "p2b": p2b,
-            "density": rng.choice([None, None, 0.25, 0.8, 1.0]), "terminals": rng.random() < 0.5}
+            "density": density, "terminals": rng.random() < 0.5}
 
 
 def floorset_instance(inp: dict):
@@ -1089,14 +1534,39 @@ def floorset_alpha(fp, inp: dict) -> float | None:
     return None
 
 
+def floorset_raw_request(inp: dict) -> str | None:
+    """the raw arrays of an instance (what `FloorSetInstance.__init__` is handed), with the polygon decomposition of every
+    block computed by the implementation's own `strop_decomposition` (property C15: an input of the converter model)."""
+    import numpy as np
+    from tools.floorset_parser.floor_set_manager.utils.utils import strop_decomposition
+    try:
+        decomp = [plain(strop_decomposition(np.array(poly, dtype=float))) for poly in inp["polys"]]
+    except Exception:      # noqa: BLE001
+        return None
+    kmax = max(len(p) for p in inp["polys"]) + 2
+    verts = [[[float(x), float(y)] for x, y in p] + [[-1.0, -1.0]] * (kmax - len(p)) for p in inp["polys"]]
+    metrics = [float(len(inp["polys"])), float(len(inp["pins"])), 1.0, 1.0, 1.0, 1.0, 1.0, 1.0]
+    conn = lambda es: [[int(a), int(b), float(w)] for a, b, w in es]
+    raw = [[float(a) for a in inp["areas"]], conn(inp["b2b"]), conn(inp["p2b"]), [[float(x), float(y)] for x, y in inp["pins"]],
+           [[float(v) for v in row] for row in inp["cons"]], verts, metrics,
+           None if inp["density"] is None else float(inp["density"]), bool(inp["terminals"]), decomp]
+    return "F floorset_raw " + enc(raw)
+
+
 def run_floorset(ctx: Ctx, inp: dict, batch: Batch) -> None:
     Rectangle.undefine_epsilon()
     sz = _size(inp)
+    raw_req = floorset_raw_request(inp)
     try:
         with contextlib.redirect_stdout(QUIET):
             fp, data = floorset_instance(inp)
     except AssertionError:
-        ctx.count("floorset:source-rejected")
+        # refused by the constructor's own checks (negative entries, density outside [0, 1]): nothing is produced; the
+        # converter model must refuse the same arrays
+        ctx.case("floorset-refused", ("floorset-refused", repr(inp)), False)
+        ctx.count("floorset:source-rejected(AssertionError)")
+        if raw_req:
+            batch.add(raw_req, "err:Assert", "floorset_raw", inp)
         return
     except ValueError as e:
         if inp["pins"]:
@@ -1113,10 +1583,15 @@ def run_floorset(ctx: Ctx, inp: dict, batch: Batch) -> None:
             mods_in.append([kind, inp["areas"][i], plain(strop_decomposition(np.array(poly, dtype=float)))])
         alpha = 1.0 if not inp["density"] else float(inp["density"])
         batch.add("F floorset " + enc([mods_in, [], inp["terminals"], alpha, inp["b2b"], []]), "err:ValueError", "floorset", inp)
+        if raw_req:
+            batch.add(raw_req, "err:ValueError", "floorset_raw", inp)
         return
     except ZeroDivisionError as e:
         if inp["density"] and not any(w > 0 for _, _, w in inp["b2b"] + inp["p2b"]):
+            ctx.case("floorset-refused", ("floorset-zerodiv", repr(inp)), False)
             ctx.count("floorset:density-without-connections(degenerate)")
+            if raw_req:
+                batch.add(raw_req, "err:ZeroDivisionError", "floorset_raw", inp)
             return
         ctx.spec_fail("floorset:convert", inp, {"raised": repr(e)[:300]}, sz)
         return
@@ -1211,6 +1686,12 @@ def run_floorset(ctx: Ctx, inp: dict, batch: Batch) -> None:
     if alpha is not None:
         req = enc([mods_in, inp["pins"], inp["terminals"], float(alpha), inp["b2b"], inp["p2b"]])
         batch.add("F floorset " + req, [load_text(s1), load_text(d1)], "floorset", inp, "tol")
+    # ---- Lean: the converter from the RAW arrays (validation, kinds from the constraints, alpha from the density)
+    if raw_req:
+        batch.add(raw_req, [load_text(s1), load_text(d1)], "floorset_raw", inp, "tol")
+        if alpha is not None:
+            kinds = [2 if inp["cons"][i][1] else 1 if inp["cons"][i][0] else 0 for i in range(len(inp["polys"]))]
+            batch.add(raw_req.replace("F floorset_raw ", "F floorset_alpha ", 1), [float(alpha), kinds], "floorset_alpha", inp, "tol")
     nl_read_request(batch, s1, inp)
     nl_read_request(batch, s2, inp)
 
@@ -1292,6 +1773,20 @@ def run_rectio(ctx: Ctx, inp: dict, batch: Batch) -> None:
                     outs.append(e)
                 Rectangle.undefine_epsilon()
         doc1 = open(fn).read()
+        # with a netlist FILE the function is not a producer: it returns that netlist as the reader loads it
+        if not isinstance(outs[0], BaseException) and texts:
+            nfn = os.path.join(td, "net.yaml")
+            with open(nfn, "w") as fh:
+                fh.write(texts[0])
+            try:
+                with contextlib.redirect_stdout(QUIET):
+                    via_file = rect_io.get_netlist(nfn, fn)
+                Rectangle.undefine_epsilon()
+                if not typed_eq(plain(netlist_summary(via_file)), plain(netlist_summary(outs[0]))):
+                    ctx.spec_fail("rectio:netlist-file-branch", inp, {}, sz)
+            except Exception as e:      # noqa: BLE001
+                ctx.spec_fail("rectio:netlist-file-branch", inp, {"raised": repr(e)[:200]}, sz)
+            Rectangle.undefine_epsilon()
     ctx.case("rect_io.get_netlist", ("rectio", doc0), True, sample={"producer": "rect_io.get_netlist", "alloc": doc0[:200]})
     if inp["alloc"].get("scale") is not None:
         ctx.count("rectio:scale:" + inp["alloc"]["scale"])
@@ -1342,7 +1837,9 @@ def gen_solnet(rng) -> dict:
         x, y = rng.randint(0, 20) + rng.choice([0, 0.5]), rng.randint(0, 20) + rng.choice([0, 0.25])
         w, h = rng.choice([1, 2, 2.5, 4]), rng.choice([1, 2, 3, 0.5])
         x, y = x + w / 2, y + h / 2
-        if k < 0.3:
+        if k < 0.03:
+            mods[name] = {"area": rng.choice([4, 2.5])}       # never placed: no centre, no rectangle, not in the result
+        elif k < 0.3:
             area: Any = rng.choice([4, 4.0, 2.5, rng.uniform(1, 9)])
             if rng.random() < 0.2:
                 area = {"_": area, "dsp": rng.choice([1, 0.5])}
@@ -1376,6 +1873,18 @@ def gen_solnet(rng) -> dict:
     return {"producer": "solnet", "netlist": {"Modules": mods, "Nets": nets}, "result": result}
 
 
+def solmod_wire(m, result) -> list:
+    """what `solution_to_netlist` reads of a module."""
+    if m.name in result:
+        shape: Any = [0, [list(b) for b in result[m.name]]]
+    elif len(m.rectangles) > 0:
+        shape = [1, [[r.center.x, r.center.y, r.shape.w, r.shape.h] for r in m.rectangles]]
+    else:
+        shape = [2, [m.center.x, m.center.y]]
+    return [m.name, shape, bool(m.is_hard), bool(m.is_fixed), bool(m.is_terminal),
+            [[k, v] for k, v in m.area_regions.items()], m.area()]
+
+
 def run_solnet(ctx: Ctx, inp: dict, batch: Batch) -> None:
     from tools.rect import rect_io
     Rectangle.undefine_epsilon()
@@ -1388,12 +1897,23 @@ def run_solnet(ctx: Ctx, inp: dict, batch: Batch) -> None:
         return
     result = {k: [tuple(b) for b in v] for k, v in inp["result"].items()}
     before = (plain(netlist_summary(src)), copy.deepcopy(result))
+    unplaced = [m.name for m in src.modules if m.name not in result and len(m.rectangles) == 0 and not isinstance(m.center, Point)]
     try:
         s1 = rect_io.solution_to_netlist(src, result)
         s2 = rect_io.solution_to_netlist(src, result)
     except Exception as e:
+        if unplaced and type(e) is Exception:
+            # not a solution of the stage (a module was never placed): the emitter refuses, and so must the model
+            ctx.case("solution_to_netlist-refused", ("solnet-refused", repr(inp)), False)
+            ctx.count("solnet:unplaced-module(Exception)")
+            mods_in0 = [None if m.name in unplaced else "placed" for m in src.modules]
+            batch.add("F solnet " + enc([[None if x is None else solmod_wire(m, result) for x, m in zip(mods_in0, src.modules)],
+                                         [[[x.name for x in e2.modules], e2.weight] for e2 in src.edges]]), "err:Exception", "solnet", inp)
+            return
         ctx.spec_fail("solnet:produce", inp, {"raised": repr(e)[:200]}, sz)
         return
+    if unplaced:
+        ctx.spec_fail("solnet:unplaced-module-not-refused", inp, {"modules": unplaced}, sz)
     sm0 = before[0]
     has_term = any(m["terminal"] for m in sm0["modules"])
     has_w = any(w != 1 for _, w in sm0["nets"])
@@ -1438,16 +1958,7 @@ def run_solnet(ctx: Ctx, inp: dict, batch: Batch) -> None:
     except Exception as e:
         ctx.spec_fail("solnet:text-is-yaml", inp, {"raised": repr(e)[:200], "document": s1[:300]}, sz)
         return
-    mods_in = []
-    for m in src.modules:
-        if m.name in result:
-            shape: Any = [0, [list(b) for b in result[m.name]]]
-        elif len(m.rectangles) > 0:
-            shape = [1, [[r.center.x, r.center.y, r.shape.w, r.shape.h] for r in m.rectangles]]
-        else:
-            shape = [2, [m.center.x, m.center.y]]
-        mods_in.append([m.name, shape, bool(m.is_hard), bool(m.is_fixed), bool(m.is_terminal),
-                        [[k, v] for k, v in m.area_regions.items()], m.area()])
+    mods_in = [solmod_wire(m, result) for m in src.modules]
     nets_in = [[[x.name for x in e.modules], e.weight] for e in src.edges]
     batch.add("F solnet " + enc([mods_in, nets_in]), tree1, "solnet", inp)
     nl_read_request(batch, s1, inp)
@@ -1569,7 +2080,7 @@ def run_legal(ctx: Ctx, inp: dict, batch: Batch) -> None:
 
 
 # =============================================================================== orchestration
-RUNNERS = {"netgenc": run_netgen_centres, "die": run_die, "alloc": run_alloc, "netgen": run_netgen, "namededges": run_namededges,
+RUNNERS = {"netgenc": run_netgen_centres, "netgenmain": run_netgen_main, "die": run_die, "alloc": run_alloc, "netgen": run_netgen, "namededges": run_namededges,
            "floorset": run_floorset, "rectio": run_rectio, "solnet": run_solnet, "legalfloor": run_legal}
 
 
@@ -1578,10 +2089,12 @@ def netgen_cases(ctx: Ctx) -> list[dict]:
     lv = 3 if ctx.tier == "quick" else 4
     out = []
     for kind in ("chain", "ring", "star", "ring-star", "one-net"):
-        for n in range(0, big + 1):
+        for n in range(-3, big + 1):
             out.append({"producer": "netgen", "kind": kind, "size": [n], "cli": n in (NETGEN_MIN[kind], 7)})
-    for n in range(1, lv + 1):
+    for n in range(-1, lv + 1):
         out.append({"producer": "netgen", "kind": "htree", "size": [n], "cli": n == 2})
+    for r, c in ((0, 0), (0, 1), (1, 0), (0, 3), (3, 0), (-1, 2), (2, -1), (-2, -2), (5, 0)):
+        out.append({"producer": "netgen", "kind": "grid", "size": [r, c], "cli": False})
     g = 12 if ctx.tier == "quick" else 40
     for r in range(1, g + 1):
         for c in range(1, g + 1):
@@ -1596,6 +2109,8 @@ def netgen_cases(ctx: Ctx) -> list[dict]:
 def safe(ctx: Ctx, producer: str, inp: dict, batch: "Batch") -> None:
     """run one case; an exception that escapes the case (implementation raising on a well-formed input at a place the
     case did not anticipate) is a property failure of that producer, never a harness crash."""
+    global LIBRARY_USED
+    LIBRARY_USED = True
     try:
         RUNNERS[producer](ctx, inp, batch)
     except Exception as e:        # noqa: BLE001
@@ -1617,19 +2132,21 @@ def run(ctx: Ctx) -> None:
                 "blockages + tagged regions + fixed modules of a netlist), written unrefined, after split_refinable_regions "
                 "or after initial_grid; alloc: random allocation trees (cells with/without region, ratio maps incl. 0/1/ints, "
                 "depths) and die+netlist pipelines (create_initial_allocation, refine, uniform_refinement_depth, griddify); "
-                "netgen: EVERY topology at EVERY size up to the tier bound (no sampling), plus grids with --add-centers (with and without noise, builder and CLI); namededges: random edge lists; "
+                "netgen: EVERY topology at EVERY size from -3 up to the tier bound (no sampling; below the guards model and code are compared on tree, reader verdict and exception class), plus grids with --add-centers (with and without noise, builder and CLI, no rows / no columns / no die), plus random command lines of netgen.main (wrong size counts, --add-centers on other types, no die, negative noise); namededges: random edge lists; "
                 "floorset: synthetic numpy instances (rect/L/T/U/plus polygons in random orientation, soft/hard/pre-placed, "
                 "pins on the four borders, in the corners and inside, both terminal modes, with/without density); "
                 "rect_io.get_netlist on the allocation stream's objects and on allocations in units 1e-6…1e3 / 2^-20…2^10 whose modules span ≥ 2 cells (area and centre compared with exact sums at relative tolerance 1e-9); solution_to_netlist on random netlists (soft/hard/"
                 "fixed/terminal modules, hyperedges, weights) with random results; legalfloor.Model.get_netlist on models "
-                "built without solving, variables set to a rigid displacement. Non-trivial: a die with regions or refinement, "
+                "built without solving, variables set to a rigid displacement. Every die and allocation document is re-read a second time in a fresh forked interpreter (tolerances undefined, or preset to k x the design's own, k in 1e-3..1e3). Non-trivial: a die with regions or refinement, "
                 "an allocation with ratios, a topology with at least one net; distinct = distinct documents")
     ctx.assumptions += [
         "netgen sizes below chain 1, star 1, one-net 2, ring 3, ring-star 4, h-tree 1, grid 1×1 are 'topology not defined' "
-        "(self-loops, one-pin nets, unknown modules) and are only counted",
+        "(self-loops, one-pin nets, unknown modules): no claim about the design there, but generator tree, reader verdict and "
+        "exception class are compared with the model (stream netgen-undefined)",
+        "fresh-interpreter re-reads under a preset tolerance: a die whose smallest gap between boundary coordinates is below 4 x the "
+        "preset tolerance is outside the separated band of die_roundtrip_any_state and only counted (fresh:die:outside-band)",
+        "FloorSet density is None or a Python float (the isinstance check of the constructor is not modelled)",
         "a source object that the constructors themselves reject (C01/C02/C12 territory) produces no document and is skipped",
-        "NOT CLAIMED: the run-time `fixed` mark of allocation cells is not part of the allocation document (no field in the format); "
-        "cells are compared without it and the cases where it is lost are counted (alloc:fixed-mark-not-carried)",
         "FloorSet-Lite inputs (one [w,h,x,y] row per block) cannot be converted at all (IndexError in _parse_modules): "
         "the property's quantifier is over instances with polygonal blocks (FloorSet-Prime)",
         "legalfloor cannot build a model for modules without rectangles (terminals): those netlists are not solutions "
@@ -1638,6 +2155,16 @@ def run(ctx: Ctx) -> None:
         "spans a non-degenerate die (some pin has x > 0, some pin has y > 0); with a density factor, "
         "at least one connection has positive weight (otherwise the converter divides by zero before producing anything)",
     ]
+    fresh_server()        # fork the pristine interpreter BEFORE the first operation of the library
+    if not mark_carried():
+        msg = ("DEFECT PRESENT (C19_alloc_fixed_mark, findings/C19_alloc_fixed_mark.py): this tree does not write the `fixed` mark of "
+               "allocation cells, so an allocation read back answers refine / uniform_refinement_depth / griddify differently from the "
+               "one written; repair = fixes/C19_alloc_fixed_mark.diff.  Until it is applied the allocation stream is judged against the "
+               "AS-FOUND model (writeAllocOrig / readAllocOrig) and the lost marks are counted, not reported; the theorems "
+               "alloc_roundtrip_constructor / reread_answers_alike are about the repaired code (alloc_orig_loses_mark is about this one)")
+        if msg not in ctx.notes:
+            ctx.notes.append(msg)
+        ctx.extra["defect_present_repair_pending"] = "C19_alloc_fixed_mark"
     batch = Batch()
     rng = ctx.rng
     seeds = getattr(ctx, "seed_inputs", None) or []
@@ -1648,6 +2175,8 @@ def run(ctx: Ctx) -> None:
         safe(ctx, "netgen", inp, batch)
     for _ in range(ctx.n(60, 600)):
         safe(ctx, "netgenc", gen_netgen_centres(rng), batch)
+    for _ in range(ctx.n(80, 800)):
+        safe(ctx, "netgenmain", gen_netgen_main(rng), batch)
     for _ in range(ctx.n(150, 2000)):
         safe(ctx, "die", gen_die(rng), batch)
     for _ in range(ctx.n(150, 1500)):
@@ -1674,6 +2203,7 @@ def run(ctx: Ctx) -> None:
 
 def replay(ctx: Ctx, body: dict) -> None:
     inp = body["input"]
+    fresh_server()
     batch = Batch()
     safe(ctx, inp["producer"], inp, batch)
     batch.flush(ctx)
